@@ -168,6 +168,8 @@ def run_shard(shard):
             interleaved_family(st)
         if li == 1:
             duplicates_family(st)
+        if li == 2:
+            replaced_family(st)
         if li == lo:
             st.sample({"lhs": ltext, "rhs": corpus.render(neighbours(lspec)[0])
                        if neighbours(lspec) else ltext, "arrays": "position",
@@ -218,6 +220,32 @@ def duplicates_family(st):
                         check(st, ldoc, rdoc, ltext, rtext,
                               ("dup%d" % len(litems), "dup%d" % len(ritems)),
                               arrays, aoh)
+
+
+def replaced_family(st):
+    """Several members replaced in place at once (also moved, dropped, added):
+    [p, q, r] and [p, q, r, s] against every list of three or four members
+    over those and two further values - as scalars and as records."""
+    import itertools
+    pools = (("p", "q", "r", "s", "x", "y"),
+             tuple(rec(i, v) for i, v in enumerate("pqrsxy")))
+    for pool in pools:
+        rights = list(itertools.product(pool, repeat=3)) + \
+            list(itertools.product(pool, repeat=4))
+        for litems in (pool[:3], pool[:4]):
+            lspec = ("l", litems)
+            ltext = corpus.render(lspec)
+            ldoc = corpus.load(ltext)
+            for ritems in rights:
+                rspec = ("l", ritems)
+                rtext = corpus.render(rspec)
+                rdoc = corpus.load(rtext)
+                for arrays, aoh in (("value", "position"), ("value", "value"),
+                                    ("position", "value"),
+                                    ("position", "deep")):
+                    check(st, ldoc, rdoc, ltext, rtext,
+                          ("rep%d" % len(litems), "rep%d" % len(ritems)),
+                          arrays, aoh)
 
 
 def interleaved_family(st):
@@ -453,8 +481,10 @@ def check(st, ldoc, rdoc, ltext, rtext, shapes, arrays, aoh):
         return
     positional = arrays == "position" and aoh in ("position", "dpos")
     if not positional:
-        if not differs and not entries and leaves(ldoc) != [()]:
-            pass
+        if arrays == "value" and corpus.is_list(ldoc) and \
+                corpus.is_list(rdoc) and all(
+                    corpus.is_scalar(x) for x in list(ldoc) + list(rdoc)):
+            value_accounting(st, case, modes, ldoc, rdoc, entries)
         return
     # ---- truth (positional comparison)
     for e in entries:
@@ -511,6 +541,40 @@ def check(st, ldoc, rdoc, ltext, rtext, shapes, arrays, aoh):
                     "%d left / %d right elements accounted once" % (
                         len(ldoc), len(rdoc)),
                     "%d / %d: %s" % (nl, nr, describe(entries)))
+
+
+def value_accounting(st, case, modes, ldoc, rdoc, entries):
+    """Two lists of scalars synchronised by value: whatever index an entry is
+    reported at, the left-hand values of the SAME / CHANGE / DELETE entries
+    are the left list's members, each once, and the right-hand values of the
+    SAME / CHANGE / ADD entries the right list's; SAME pairs are equal and
+    CHANGE pairs are not."""
+    def key(v):
+        val = corpus.plain_scalar(v)
+        return repr(val)
+    lvals, rvals = [], []
+    for e in entries:
+        lval, rval = e.lhs, getattr(e, "rhs", getattr(e, "_rhs", None))
+        if e.action in (DiffActions.SAME, DiffActions.CHANGE,
+                        DiffActions.DELETE):
+            lvals.append(key(lval))
+        if e.action in (DiffActions.SAME, DiffActions.CHANGE,
+                        DiffActions.ADD):
+            rvals.append(key(rval))
+        if e.action is DiffActions.SAME and key(lval) != key(rval):
+            st.fail("truth|%s|SAME-but-different" % modes, case, "equal",
+                    "%r vs %r" % (lval, rval))
+            return
+        if e.action is DiffActions.CHANGE and key(lval) == key(rval):
+            st.fail("truth|%s|CHANGE-but-equal" % modes, case, "different",
+                    "%r vs %r" % (lval, rval))
+            return
+    if sorted(lvals) != sorted(key(x) for x in ldoc) or \
+            sorted(rvals) != sorted(key(x) for x in rdoc):
+        st.fail("accounting|%s|by-value" % modes, case,
+                "every member of either list accounted for once",
+                "left %r right %r: %s" % (sorted(lvals), sorted(rvals),
+                                          describe(entries)))
 
 
 def _mixed_list(doc):
